@@ -39,6 +39,8 @@
 (* Kinds (roles of the two URIs):                                          *)
 (*   "mft"    rpkiManifest URIs of two CAs without rpkiNotify              *)
 (*   "mftn"   the same, both CAs carry the rpkiNotify URI FixedNotify      *)
+(*   "mftr"   the same, and the objects of both CAs are published by the   *)
+(*            one RRDP repository FixedNotify (nothing is fetched by rsync)*)
 (*   "ta"     rsync URIs of two trust anchor locators                      *)
 (*   "tah"    HTTPS URIs of two trust anchor locators                      *)
 (*   "notify" rpkiNotify URIs of two CAs (manifests FixedMft(1), (2))      *)
@@ -56,8 +58,8 @@
 (***************************************************************************)
 EXTENDS Naturals, Sequences, FiniteSets, TLC
 
-CONSTANTS Variant,   \* "intended" | "as_shipped"
-          Kinds,     \* subset of {"mft", "mftn", "ta", "tah", "notify", "notify1"}
+CONSTANTS Variant,   \* "intended" | "as_shipped" | "dump_drops_host" (seeded: RRDP objects are dumped without their rsync host)
+          Kinds,     \* subset of {"mft", "mftn", "mftr", "ta", "tah", "notify", "notify1"}
           Mode,      \* "all": every pair | "near": pairs one edit apart | "single": one URI, whole alphabet
           HostsR,    \* host names (lower case) of rsync URIs
           HostsH,    \* host names of HTTPS URIs (may contain the oddities "" and "..")
@@ -202,6 +204,12 @@ DumpObjectPath(m, n, slot) ==                                           \* store
   ELSE <<"dump", "store", DumpRepoName(n, slot), CanonAuth(m), Hash(UniqueInput(m)), "manifest">>
 DumpTaPath(u)        == <<"dump", "ta", u.sch, CanonAuth(u), Hash(UniqueInput(u)) \o ".cer">>   \* store.rs:275
 DumpRsyncFilePath(u) == <<"dump", "rsync", CanonAuth(u), u.mod>> \o u.path                      \* rsync.rs:137
+(* an object of the RRDP repository n: rrdp/base.rs:189-262 (dump_repository): below the repository's directory *)
+(* the rsync URI of the object, host included (two rsync hosts may publish through one RRDP repository): the     *)
+(* canonical module "rsync://host/module/" is joined as a relative path, which makes "rsync:" a directory         *)
+DumpRrdpFilePath(u, n) ==
+  IF Variant = "dump_drops_host" THEN <<"dump", "rrdp", DumpRepoName(n, 0), "rsync", u.mod>> \o u.path
+  ELSE <<"dump", "rrdp", DumpRepoName(n, 0), "rsync", "rsync:", CanonAuth(u), u.mod>> \o u.path
 
 ----------------------------------------------------------------------------
 (* The entries created for the URI(s) of a case.                           *)
@@ -239,6 +247,14 @@ EntriesMft(u, i, n) ==
               E(DumpObjectPath(u, n, 0), "file", "dump")}
         ELSE {})
 
+(* kind "mftr": the point file as for "mftn"; the objects come out of the archive of FixedNotify (shared by both  *)
+(* CAs, hence no entry of either) and are dumped from there.                                                      *)
+EntriesMftR(u, i) ==
+  {E(StorePointPath(u, FixedNotify), "file", "run")}
+  \cup (IF Published(i)
+        THEN {E(DumpRrdpFilePath(u, FixedNotify), "file", "dump"), E(DumpObjectPath(u, FixedNotify, 0), "file", "dump")}
+        ELSE {})
+
 (* The module directory exists once rsync copied something into it.  The   *)
 (* dump copies the directories stored/ta/rsync and stored/ta/https         *)
 (* (store.rs:275): a certificate whose authority ".." moved it out of      *)
@@ -272,6 +288,7 @@ Entries(k, u, i, other) ==
   IF u.sch = "none" THEN {}
   ELSE CASE k = "mft"    -> EntriesMft(u, i, NoUri)
          [] k = "mftn"   -> EntriesMft(u, i, FixedNotify)
+         [] k = "mftr"   -> EntriesMftR(u, i)
          [] k = "ta"     -> EntriesTa(u, i)
          [] k = "tah"    -> EntriesTa(u, i)
          [] k = "notify" -> EntriesNotify(u, i, other, i)
